@@ -1,4 +1,5 @@
 mod fw;
+mod fwgen;
 mod genm;
 mod util;
 mod vtime;
@@ -19,11 +20,30 @@ fn main() {
     let mut w = std::io::BufWriter::new(stdout.lock());
     match cmd {
         "fw-gen" => {
-            let mut p = util::Prng::new(seed);
+            let kind = arg_val(&args, "--kind").unwrap_or_else(|| "general".into());
+            let mut p = util::Prng::new(seed ^ fxhash(&kind));
             for i in 0..cases {
                 let mut cp = p.fork();
-                let c = fw::gen_general(&mut cp, format!("g{}-{}", seed, i));
-                let _ = w.write_all(fw::run_case(&c).as_bytes());
+                let id = format!("{}-{}-{}", kind, seed, i);
+                let c = match kind.as_str() {
+                    "general" => fw::gen_general(&mut cp, id),
+                    other => match fwgen::gen_kind(other, &mut cp, id) {
+                        Some(c) => c,
+                        None => {
+                            eprintln!("unknown kind {other}");
+                            std::process::exit(2);
+                        }
+                    },
+                };
+                emit_fw(&mut w, &c, &mut cp);
+            }
+        }
+        "fw-replay" => {
+            let mut text = String::new();
+            let _ = std::io::Read::read_to_string(&mut std::io::stdin(), &mut text);
+            let mut p = util::Prng::new(seed);
+            for c in fw::parse_cases(&text) {
+                emit_fw(&mut w, &c, &mut p);
             }
         }
         _ => {
@@ -31,4 +51,23 @@ fn main() {
             std::process::exit(2);
         }
     }
+}
+
+fn fxhash(s: &str) -> u64 {
+    let mut h: u64 = 0xcbf29ce484222325;
+    for b in s.bytes() {
+        h ^= b as u64;
+        h = h.wrapping_mul(0x100000001b3);
+    }
+    h
+}
+
+/// emit a framework case: protocol text with the determinism line inserted before `end`
+fn emit_fw<W: Write>(w: &mut W, c: &fw::FwCase, p: &mut util::Prng) {
+    let text = fw::run_case(c);
+    let det = fw::det_line(c, p);
+    let body = text.strip_suffix("end\n").unwrap_or(&text);
+    let _ = w.write_all(body.as_bytes());
+    let _ = w.write_all(det.as_bytes());
+    let _ = w.write_all(b"end\n");
 }
